@@ -654,9 +654,17 @@ impl Check for C12 {
         let cfg = gen_cfg(rng);
         let mut scn = Scn { program, cfg, cycles: 0, interrupts: vec![], resets: vec![], expect: None, layer: Layer::InProcess, volt_text: vec![], huge_budget: None };
         if rng.chance(1, 4) {
+            let dac = 1 + rng.below(250) as u32;
             if !broken && rng.bool() {
-                // a program that makes the board status (comparators, jumpers, UIO) visible in the outputs
-                scn.program = "#! mrasm\n    LD R0, (0xF1)\n    ST (0xFE), R0\n    LD R1, (0xF3)\n    ST (0xFF), R1\n    STOP\n".to_string();
+                // a program that makes the board status (comparators, jumpers, UIO) visible in the
+                // outputs, after setting both DACs to a seeded step
+                scn.program = format!("#! mrasm\n    LD R2, {}\n    ST (0xF0), R2\n    ST (0xF1), R2\n    LD R0, (0xF1)\n    ST (0xFE), R0\n    LD R1, (0xF3)\n    ST (0xFF), R1\n    STOP\n", dac);
+                // ... and a voltage within a few millivolts of that step, spelled with 3-4 decimals
+                let mv = dac as i64 * 10 + rng.below(11) as i64 - 5;
+                let t = if rng.bool() { format!("{}.{:03}", mv / 1000, mv % 1000) } else { format!("{}.{:03}{}", mv / 1000, mv % 1000, rng.below(10)) };
+                if mv >= 0 {
+                    scn.volt_text.push((rng.below(3) as u8, t));
+                }
             }
             for _ in 0..1 + rng.below(2) {
                 let t = *rng.pick(&["nan", "NaN", "inf", "-inf", "infinity", "1e40", "-1e40", "-0", "5.0000001", "4.9999", "1e-50", "+2.5", ".5", "5.", "2.55", "-nan"]);
